@@ -805,6 +805,17 @@ example :
     (m.hs 0).downRaaUpdate = .handedToWatch ∧ (m.hs 1).downRaaUpdate = .handedToWatch ∧ (m.hs 0).blocker = false ∧
     FwdMulti.coherent m = true := by decide
 
+/-- **multi_interference_coherent.** What makes the lifting meaningful: the interference each HTLC's one-HTLC record carries is the
+    TRUE global one — in every reachable state of the N-machine, for every HTLC `i`, its `downOther` counter (which parks the
+    downstream revocation update) equals the number of OTHER HTLCs that currently hold an `RAAMonitorUpdateBlockingAction`. -/
+theorem multi_interference_coherent (n : Nat) (ops : List FwdMulti.MOp) (i : Nat) :
+    let m := FwdMulti.mrun (FwdMulti.minit n) ops
+    (m.hs i).downOther = FwdMulti.countOthers n i (fun k => (m.hs k).blocker) := by
+  intro m
+  have h := FwdMulti.coh_run (FwdMulti.minit n) ops (FwdMulti.coh_init n) i
+  rw [FwdMulti.mrun_n] at h
+  exact h
+
 /-- **multi_preimage_durable_before_removal_irrevocable.** In every reachable state of the N-machine, for EVERY HTLC: the
     downstream revocation update is with `chain::Watch` (or durable) only if that HTLC's upstream preimage update is durable;
     and no HTLC is ever failed upstream while the next hop has, or can still get, its downstream amount. -/
